@@ -83,10 +83,13 @@ def builtin_cases(rng, tier):
             for kl, kr in itertools.product(kinds, repeat=2):
                 out.append({"family": fam_of(op), "op": op, "left": rng.choice(by_kind[kl]),
                             "right": rng.choice(by_kind[kr]), "placement": rng.choice(pc.PLACEMENTS)})
-        for _ in range(1500):
+        for i in range(1500):
             op = rng.choice(pc.ARITH_NAMES + pc.CMP_NAMES)
-            out.append({"family": fam_of(op), "op": op, "left": rng.choice(vals), "right": rng.choice(vals),
-                        "placement": rng.choice(pc.PLACEMENTS)})
+            case = {"family": fam_of(op), "op": op, "left": rng.choice(vals), "right": rng.choice(vals),
+                    "placement": rng.choice(pc.PLACEMENTS)}
+            if i % 3 == 0:
+                case["spelling"] = "infix"        # `a + b` as source text instead of operator.add(a, b)
+            out.append(case)
     for op in pc.CONV:
         for v in vals:
             out.append({"family": fam_of(op), "op": op, "left": v})
